@@ -36,7 +36,16 @@ C = [
  ('c06_assignment_yields_value', 'C06', ['ev'], 'parser.rs', r'(\);\n                )Ok\(Value::None\)', r'\1Ok(Value::Bool(true))'),
  ('c06_right_side_first', 'C06', ['ev'], 'parser.rs', r'let \(a, b\) = \(lhs\.exec\(ctx\)\?, rhs\.exec\(ctx\)\?\);', 'let (b, a) = (rhs.exec(ctx)?, lhs.exec(ctx)?);'),
  ('c06_chain_keeps_first_value', 'C06', ['ev'], 'parser.rs', r'ans = expr\.exec\(ctx\)\?;', 'let _v = expr.exec(ctx)?;'),
- ('c06_set_variable_wrong_name', 'C06', ['lb'], 'context.rs', r'self\.set\(name, ContextValue::Variable\(value\)\);', 'self.set("x", ContextValue::Variable(value));'),
+ ('c07_value_swallows_error', 'C07', ['ev'], 'context.rs', r'ContextValue::Function\(func\) => func\(Vec::new\(\)\),', 'ContextValue::Function(func) => match func(Vec::new()) { Ok(v) => Ok(v), Err(_) => Ok(Value::None) },'),
+ ('c06_get_variable_of_function', 'C06', ['ev'], 'context.rs', r'ContextValue::Function\(_\) => None,', 'ContextValue::Function(_) => Some(Value::None),'),
+ ('c08_get_func_drops_function', 'C08', ['ev'], 'context.rs', r'ContextValue::Function\(func\) => Some\(func\.clone\(\)\),', 'ContextValue::Function(_func) => None,'),
+ ('c08_infix_get_inverted', 'C08', ['lb'], 'operator.rs', r'if ans\.is_none\(\) \{(\s*)return Err\(Error::InfixOpNotRegistered', r'if ans.is_some() {\1return Err(Error::InfixOpNotRegistered'),
+ ('c08_function_get_fixed_key', 'C08', ['lb'], 'function.rs', r'let ans = binding\.get\(name\);', 'let ans = binding.get("min");'),
+ ('c03_function_get_fixed_key', 'C03', ['lb'], 'function.rs', r'let ans = binding\.get\(name\);', 'let ans = binding.get("max");'),
+ ('c05_postfix_exist_inverted', 'C05', ['lb'], 'operator.rs', r'(impl PostfixOpManager \{[\s\S]*?binding\.get\(op\))\.is_some\(\)', r'\1.is_none()'),
+ ('c10_prefix_exist_inverted', 'C10', ['lb'], 'operator.rs', r'(impl PrefixOpManager \{[\s\S]*?binding\.get\(op\))\.is_some\(\)', r'\1.is_none()'),
+ ('c18_store_get_fixed_key', 'C18', ['ds'], 'descriptor.rs', r'let value = binding\.get\(&key\);', 'let value = binding.get(&DescriptorKey::LIST);'),
+ ('c06_set_variable_wrong_name', 'C06', ['ev'], 'context.rs', r'self\.set\(name, ContextValue::Variable\(value\)\);', 'self.set("x", ContextValue::Variable(value));'),
  # ---- C07 order / laziness
  ('c07_both_branches', 'C07', ['ev'], 'parser.rs', r'if val \{\n                    return lhs\.exec\(ctx\);\n                \}', 'let l = lhs.exec(ctx);\n                if val {\n                    return l;\n                }'),
  ('c07_map_value_before_key', 'C07', ['ev'], 'parser.rs', r'ans\.push\(\(k\.exec\(ctx\)\?, v\.exec\(ctx\)\?\)\);', 'let vv_ = v.exec(ctx)?;\n            ans.push((k.exec(ctx)?, vv_));'),
